@@ -216,27 +216,45 @@ def lazy_rule(ctx):
     tg = [f for f in tc.fns if f.base == "Template" and f.name == "to_proc_gen" and f.body]
     if tg:
         f = tg[0]
-        # import table
-        lp = [n for n in sir.walk(f.body) if n.get("k") == "for" and "imports" in sir.expr_str(n["e"])]
-        ok = False
-        d = "import loop not found"
+        # import table: the loop that writes one `(G[..]||{})._` operand per import; what it runs over is followed through a local
+        # (`let keys: Vec<_> = self.globals.imports.iter().map(..).collect()`)
+        def frag_of(x):
+            w_ = sir.write_fmt_call(x)
+            return "".join(p[1] if p[0] == "lit" else "{}" for p in w_[1]) if w_ else None
+        lp = [n for n in sir.walk(f.body) if n.get("k") == "for" and any("(G[" in (frag_of(x) or "") for x in sir.walk(n["body"]))]
+        ok = None
+        d = "import loop not found in a form this rule reads"
         if len(lp) == 1:
             l = lp[0]
-            it = sir.expr_str(l["e"]).replace(" ", "")
-            plain = it == "self.globals.imports.iter()"
+            src = sir.strip_ref(l["e"])
+            hops = 0
+            chain = []
+            while hops < 6:
+                hops += 1
+                if src.get("k") == "mcall":
+                    chain.append(src["m"])
+                    src = sir.strip_ref(src["recv"])
+                    continue
+                if src.get("k") == "path" and len(src["segs"]) == 1:
+                    inits = [x["init"] for x in sir.walk(f.body) if x.get("k") == "local" and x["pat"].get("name") == src["segs"][0] and x.get("init") is not None]
+                    if len(inits) == 1:
+                        src = sir.strip_ref(inits[0])
+                        continue
+                break
+            root = sir.expr_str(src).replace(" ", "")
+            plain = root == "self.globals.imports" and not [m_ for m_ in chain if m_ not in ("iter", "map", "collect", "cloned", "into_iter", "as_slice", "to_vec", "clone")]
             body_stmts = l["body"]["stmts"]
             skipping = any(x.get("k") in ("if", "continue", "match") for st in body_stmts for x in sir.walk(st) if x.get("k") in ("if", "continue", "match"))
-            writes = [sir.write_fmt_call(x) for x in sir.walk(l["body"]) if sir.write_fmt_call(x)]
-            frag = ["".join(p[1] if p[0] == "lit" else "{}" for p in w[1]) for w in writes]
-            ok = plain and not skipping and frag == [",(G[{}]||{})._".replace("_", "_")]
-            d = "imports iterated as `%s`, skipping/reordering: %s, fragment %s" % (it, skipping, frag)
+            frag = [frag_of(x) for x in sir.walk(l["body"]) if frag_of(x)]
+            ok = plain and not skipping and frag == [",(G[{}]||{})._"]
+            d = "imports iterated as `%s%s`, skipping/reordering: %s, fragment %s" % (root, "".join("." + m_ + "()" for m_ in reversed(chain)), skipping, frag)
             # surrounding: Object.assign({} ... ,H)
             pm = sir.parent_map(f.body)
             blk = pm.get(id(l))
             while blk is not None and blk.get("k") != "block":
                 blk = pm.get(id(blk))
-            lits = ["".join(p[1] if p[0] == "lit" else "{}" for p in sir.write_fmt_call(x)[1]) for st in (blk["stmts"] if blk else []) for x in sir.walk(st) if sir.write_fmt_call(x)]
-            ok = ok and lits and lits[0].startswith("if(!S)S=Object.assign({}") and lits[-1] == ",H)"
+            lits = [frag_of(x) for st in (blk["stmts"] if blk else []) for x in sir.walk(st) if frag_of(x)]
+            ok = bool(ok and lits and lits[0].startswith("if(!S)S=Object.assign({}") and lits[-1] == ",H)")
             d += "; table is %s ... %s" % (lits[:1], lits[-1:])
         obs.append(ob("C13.lazy/import-table", ok, ctx.where(f), d, witness=None if ok else "import x; import y; import x : the middle import wins for a template name defined in both"))
         # the table is built inside the function I (lazily, at first lookup)
